@@ -146,3 +146,93 @@ func verifHarness_T1_AdvanceInto() {
 	verifAssert(it.PeekNextTag() == TagEnd && it.AdvanceInto() == TagEnd, "end of tape after the closing root")
 	verifReach("T1.flat")
 }
+
+// T8: totality of the read API on well-formed tapes (C05 "on any returned result, every traversal, lookup and marshalling call
+// terminates without panic"): the iterator is moved with AdvanceInto to EVERY position of the tape (opening and closing root
+// tags, container starts and ends, keys, values, the end of the tape) and at the chosen position every reader is called on its
+// own copy of the iterator. Nothing is compared (T1-T6 do that): the obligations are the implicit ones (index, slice, nil,
+// unwinding) plus progress of the walkers.
+func verifHarness_T8_TotalAtEveryPosition() {
+	T := nondetSize("T")
+	cfg := verifCfgT1(verifChoice("nops", 2) == 1)
+	cfg.numTag, cfg.oneTag = 'l', 'n'
+	var pj *ParsedJson
+	if verifChoice("roots", 2) == 1 {
+		pj, _ = verifGenDocs(cfg, 4, T)
+	} else {
+		pj, _ = verifGenDoc(cfg, T)
+	}
+	at := verifChoice("at", len(pj.Tape)+2)
+	it := pj.Iter()
+	for k := 0; k < at; k++ {
+		if it.AdvanceInto() == TagEnd {
+			break
+		}
+	}
+	verifReach("T8.positioned")
+	n := len(pj.Tape)
+	c := it
+	_ = c.Type()
+	c = it
+	_, _, _ = c.Root(nil)
+	c = it
+	_, _ = c.Object(nil)
+	c = it
+	_, _ = c.Array(nil)
+	c = it
+	_, _ = c.Interface()
+	c = it
+	_, _ = c.FindElement(nil, "a")
+	c = it
+	_, _ = c.FindElement(nil, "a", "b")
+	c = it
+	_, _ = c.MarshalJSON()
+	c = it
+	_, _ = c.String()
+	c = it
+	_, _ = c.StringBytes()
+	c = it
+	_, _ = c.StringCvt()
+	c = it
+	_, _ = c.Int()
+	c = it
+	_, _ = c.Uint()
+	c = it
+	_, _, _ = c.FloatFlags()
+	c = it
+	_, _ = c.Bool()
+	c = it
+	_ = c.PeekNext()
+	_ = c.PeekNextTag()
+	c = it
+	ended := false
+	for k := 0; k < n+2; k++ {
+		if c.Advance() == TypeNone {
+			ended = true
+			break
+		}
+	}
+	verifAssert(ended, "Advance from any position reaches the end within len(tape)+2 steps")
+	c = it
+	ended = false
+	var el Iter
+	for k := 0; k < n+2; k++ {
+		t, err := c.AdvanceIter(&el)
+		if t == TypeNone || err != nil {
+			ended = true
+			break
+		}
+		_, _ = el.Interface()
+	}
+	verifAssert(ended, "AdvanceIter from any position reaches the end within len(tape)+2 steps")
+	c = it
+	ended = false
+	for k := 0; k < n+2; k++ {
+		if c.AdvanceInto() == TagEnd {
+			ended = true
+			break
+		}
+	}
+	verifAssert(ended, "AdvanceInto from any position reaches the end within len(tape)+2 steps")
+	verifReach("T8.done")
+}
